@@ -692,6 +692,12 @@ pub fn edit_alphabet(t: &Template, node: &Node) -> Vec<EditOp> {
             let Some(stp) = p.steps.iter().position(|s| s.outs[0] == *key) else {
                 continue;
             };
+            // A step that reports nothing (no depfile, no deps = msvc) must not
+            // start reading undeclared files: the manifest would then simply be
+            // incomplete, which is not n2's doing.
+            if p.steps[stp].depfile.is_none() && !p.steps[stp].msvc && !o.is_empty() {
+                continue;
+            }
             if o.iter().any(|h| match p.producer(&canon(h)) {
                 Some(q) => !p.ord_pred(stp).contains(&q),
                 None => false,
